@@ -16,10 +16,11 @@
  *               by one second per call, so two samples across a day boundary would disagree
  * and every combination in which at most K dimensions deviate from their default is executed
  * (K = 4: all quadruples; thorough: larger alphabets; --deep, given by ./check to the thorough tier
- * only: the thorough alphabets extended once more -- 15 string lengths (adds 4, 16, 32, 127, 128), 20 secret
- * lengths (adds 16, 32, 100 and 187..189: "AWS4"+secret crosses the third HMAC block), 24 bodies (adds 2, 54,
- * 57, 118, 121, 8192, 32768 bytes), 10 expiries (adds 2, 59, 60, 86399), 24 clock values (adds 59, 60, 3599,
- * 3600, 1999-12-31 23:59:59 and the second after, 2^32-1, 2^32); K stays 4.  A replay record of a deep run
+ * only: the thorough alphabets extended once more -- 17 string lengths (adds 4, 16, 32, 100, 127, 128, 129), 20
+ * secret lengths (adds 16, 32, 100 and 187..189: "AWS4"+secret crosses the third HMAC block), 26 bodies (adds 2,
+ * 54, 57, 118, 121, 184, 8192, 16384, 32768 bytes), 10 expiries (adds 2, 59, 60, 86399), 26 clock values (adds 59,
+ * 60, 3599, 3600, 1999-12-31 23:59:59 and the second after, 2000-12-31 23:59:59, 2004-02-29 23:59:59, 2^32-1,
+ * 2^32); K stays 4.  A replay record of a deep run
  * carries "deep":1 because its indices refer to these alphabets).
  *
  * Oracle, per case: the request printed in aws_sign.h is assembled from the inputs and the
@@ -90,13 +91,13 @@ static const int64_t TIME_Q[] = { 0, 86399, 86400, 951782399, 951782400, 2147483
 static const int64_t TIME_T[] = { 0, 86399, 86400, 951782399, 951782400, 2147483647LL, 2147483648LL, 1369353600, 4102444799LL, 253402300799LL, TFAIL,
 	68255999 /* 1972-02-29 23:59:59 */, 1709251199 /* 2024-02-29 23:59:59 */, 4107542399LL /* 2100-02-28 23:59:59 */, 1798761599 /* 2026-12-31 23:59:59 */, 1 };
 /* --deep: the thorough values first (same indices), then the additions */
-static const int LEN_D[] = { 0, 1, 2, 3, 8, 63, 64, 65, 199, 200, 4, 16, 32, 127, 128 };
+static const int LEN_D[] = { 0, 1, 2, 3, 8, 63, 64, 65, 199, 200, 4, 16, 32, 100, 127, 128, 129 };
 static const int SLEN_D[] = { 0, 1, 2, 3, 8, 40, 59, 60, 61, 64, 123, 124, 125, 200, 16, 32, 100, 187, 188, 189 };
-static const long BODY_D[] = { -1, -2, 0, 1, 55, 56, 63, 64, 65, 119, 120, 127, 128, 1000, 4096, 65536, 102400, 2, 54, 57, 118, 121, 8192, 32768 };
+static const long BODY_D[] = { -1, -2, 0, 1, 55, 56, 63, 64, 65, 119, 120, 127, 128, 1000, 4096, 65536, 102400, 2, 54, 57, 118, 121, 184, 8192, 16384, 32768 };
 static const int EXP_D[] = { 0, 1, 3600, 604800, 604801, INT_MAX, 2, 59, 60, 86399 };
 static const int64_t TIME_D[] = { 0, 86399, 86400, 951782399, 951782400, 2147483647LL, 2147483648LL, 1369353600, 4102444799LL, 253402300799LL, TFAIL,
 	68255999, 1709251199, 4107542399LL, 1798761599, 1,
-	59, 60, 3599, 3600, 946684799 /* 1999-12-31 23:59:59 */, 946684800, 4294967295LL, 4294967296LL };
+	59, 60, 3599, 3600, 946684799 /* 1999-12-31 23:59:59 */, 946684800, 978307199 /* 2000-12-31 23:59:59 */, 1078099199 /* 2004-02-29 23:59:59 */, 4294967295LL, 4294967296LL };
 #define DEFAULT_TIME 1790000000LL
 #define NEL(a) ((int)(sizeof(a) / sizeof((a)[0])))
 #define ALPHA(n) (deep ? n##_D : vf_tier ? n##_T : n##_Q)
